@@ -5,7 +5,7 @@
    the run computes (None when a read before planning was rejected — then no
    request is sent at all, first theorem). *)
 From Coq Require Import List NArith ZArith.
-From CliUtils Require Import Model.PipelineTypes Model.Pipeline Proofs.PipelineBase Proofs.PipelineAuth.
+From CliUtils Require Import Model.PipelineTypes Model.Pipeline Proofs.PipelineBase Proofs.PipelineAuth Proofs.PipelinePolicy.
 Import ListNotations.
 
 Theorem C02_no_plan_no_request : forall sc c0, run_plan sc c0 = None ->
@@ -67,6 +67,35 @@ Theorem C02_filter_chain : forall sc pl locals tbl uids c,
   prune_filters sc pl locals tbl uids c = PDelete -> delete_ok sc locals c uids.
 Proof. exact prune_filters_delete_ok. Qed.
 
+(* apply side: the apply task sends a request for an object only if the
+   inventory-policy apply filter passed, and it passes exactly when the policy
+   adopts everything, or the object does not exist yet, or the live object's
+   owning-inventory annotation is acceptable under the policy (CanApply) *)
+Theorem C02_apply_gate : forall sc pl g s p,
+  snd (policy_apply_filter sc s (p_id p)) <> FPass ->
+  forall r ok m st, In (IReq r ok m st) (r_tr (apply_one sc pl g s p)) -> In (IReq r ok m st) (r_tr s).
+Proof. exact apply_one_gate. Qed.
+
+Theorem C02_apply_policy : forall sc s i,
+  snd (policy_apply_filter sc s i) = FPass <->
+  o_policy (sc_opts sc) = PAdoptAll \/
+  (faulted sc (FGet i (count_n i (r_gets s))) = false /\
+   match find_obj (objs (r_cl s)) i with
+   | None => True
+   | Some c => can_apply sc (c_owner c) = true
+   end).
+Proof. exact policy_apply_filter_spec. Qed.
+
+Theorem C02_policy_matrix : forall sc ow,
+  can_apply sc ow = match ow, o_policy (sc_opts sc) with
+                    | OOurs, _ => true
+                    | ONone, PMustMatch => false
+                    | ONone, _ => true
+                    | OOther, PAdoptAll => true
+                    | OOther, _ => false
+                    end.
+Proof. exact can_apply_matrix. Qed.
+
 (* non-vacuity: a prune run that deletes one object and spares a keep-annotated one *)
 Example C02_nonvacuous :
   let univ := [mkU KPlain None None; mkU KPlain None None; mkU KPlain None None] in
@@ -83,3 +112,6 @@ Print Assumptions C02_delete_authorised.
 Print Assumptions C02_detach_only_prevented.
 Print Assumptions C02_apply_only_declared.
 Print Assumptions C02_filter_chain.
+Print Assumptions C02_apply_gate.
+Print Assumptions C02_apply_policy.
+Print Assumptions C02_policy_matrix.
